@@ -17,7 +17,7 @@ NA = {
     "C04": "match(build(v)) == v over converter value spaces is an identity between two runtime computations (to_url + quoting + compiled builder vs. regex matching + to_python); nothing of it is visible in the shape of the code (DESIGN.md section 5); static analysis does not apply",
 }
 # properties whose rule module I have reviewed and accepted (a module that merely exists is not claimed)
-READY = ["C01", "C03", "C05", "C06", "C07", "C08", "C09", "C10", "C11", "C12", "C13", "C14", "C15", "C16", "C17", "C18", "C20"]
+READY = ["C01", "C03", "C05", "C06", "C07", "C08", "C09", "C10", "C11", "C12", "C13", "C14", "C15", "C16", "C17", "C18", "C19", "C20"]
 PENDING = "check not built yet in this session (planned in DESIGN.md section 4); not claimed until it exists"
 
 TECH = {
